@@ -56,6 +56,12 @@ func (p *Parser) ParseRecoverOperation(request []byte, batch bool) (*model.Opera
 		if schema.Delta.UpdateCommitment == signedData.RecoveryCommitment {
 			return nil, errors.New("recovery and update commitments cannot be equal, re-using public keys is not allowed")
 		}
+
+		// the key that signs this request must not come back as the next update key either
+		err = p.validateCommitment(signedData.RecoveryKey, schema.Delta.UpdateCommitment)
+		if err != nil {
+			return nil, err
+		}
 	}
 
 	err = hashing.IsValidModelMultihash(signedData.RecoveryKey, schema.RevealValue)
